@@ -20,7 +20,8 @@ CONSTANTS Reqs,                 \* request ids
           MwLen, MwCap,         \* len / cap of every route's own middleware slice
           D_InPlaceAppend,      \* F4/F5: the per-request chain is built with append() on the shared slices
           D_LazyFallbackInit,   \* F6: r.noRoute is assigned on first use, inside the request
-          D_EarlyPut            \* deviation: the context goes back to the pool before the chain has finished
+          D_EarlyPut,           \* deviation: the context goes back to the pool before the chain has finished
+          D_PutBeforeHook       \* deviation: after a panic the context is released before the OnPanic hook has run
 
 VARIABLES garr,     \* array "G": cells 1..GCap
           rarr,     \* route -> array "R:k": cells 1..MwCap
@@ -31,7 +32,8 @@ VARIABLES garr,     \* array "G": cells 1..GCap
           writers, readers   \* cell -> requests that wrote / read it while serving (for the race check)
 svars == <<garr, rarr, noRoute, pool, nextCtx, pc, ctx, chain, own, pos, log, writers, readers>>
 
-Routes == {"a", "b"}
+Routes == {"a", "b", "p"}          \* the main handler of route "p" panics; an OnPanic hook is installed
+Hook      == <<"hook">>
 G(i)      == <<"g", i>>
 Mw(k, i)  == <<"mw", k, i>>
 MainOf(k) == <<"main", k>>
@@ -54,6 +56,7 @@ Init == /\ garr = [i \in 1..GCap |-> IF i <= GLen THEN G(i) ELSE Nil]
 
 \* what the request would log if it were alone
 SoloP(k, gl, ml) == [i \in 1..gl |-> G(i)] \o (IF k = "nf" THEN <<NF>> ELSE [i \in 1..ml |-> Mw(k, i)] \o <<MainOf(k)>>)
+                    \o (IF k = "p" THEN <<Hook>> ELSE <<>>)          \* recover -> r.OnPanic(ctx), then the context is released
 Solo(r)  == SoloP(KindOf(r), GLen, MwLen)
 
 Touch(ws, rs) ==   \* record accesses of request-level steps: ws / rs = sets of <<cell, request>>
@@ -120,14 +123,21 @@ CellValue(r, i) == CASE chain[r].arr = "G"   -> garr[i]
 CellName(r, i)  == CASE chain[r].arr = "G"   -> {<<CellG(i), r>>}
                      [] chain[r].arr = "own" -> {}
                      [] OTHER                -> {<<CellR(chain[r].arr, i), r>>}
+Hooked(r) == KindOf(r) = "p"
 Boundary(r) ==
   /\ pc[r] = "run"
   /\ IF pos[r] <= chain[r].len
      THEN /\ log' = [log EXCEPT ![r] = Append(@, CellValue(r, pos[r]))]
           /\ pos' = [pos EXCEPT ![r] = @ + 1]
           /\ Touch({}, CellName(r, pos[r]))
-          /\ IF D_EarlyPut /\ pos[r] = 1 THEN pool' = pool \cup {ctx[r]} ELSE UNCHANGED pool
+          /\ IF (D_EarlyPut /\ pos[r] = 1) \/ (D_PutBeforeHook /\ Hooked(r) /\ pos[r] = chain[r].len)
+             THEN pool' = pool \cup {ctx[r]} ELSE UNCHANGED pool
           /\ UNCHANGED pc
+     ELSE IF Hooked(r) /\ pos[r] = chain[r].len + 1
+     THEN \* the main handler panicked: handleHTTPRequest recovers and runs r.OnPanic(ctx) on the same context
+          /\ log' = [log EXCEPT ![r] = Append(@, Hook)]
+          /\ pos' = [pos EXCEPT ![r] = @ + 1]
+          /\ UNCHANGED <<pc, pool, writers, readers>>
      ELSE /\ pc' = [pc EXCEPT ![r] = "done"]
           /\ pool' = pool \cup {ctx[r]}                              \* r.ctxPool.Put(ctx)
           /\ UNCHANGED <<log, pos, writers, readers>>
